@@ -14,9 +14,33 @@ for d in sorted(glob.glob('/verif/seeded/*/')):
     det=', '.join(m.get('detected_by') or []) or '—'
     rows.append(f"| {mid} | {what} | {status} | {det} |")
 table="| id | change (from its note) | confirmation on the final tree | caught by |\n|---|---|---|---|\n"+"\n".join(rows)
+# summary for the section's introduction
+tot=own=cross=neutral=undetected=notconf=0
+cross_ids=[]; undet_ids=[]; neutral_ids=[]; notconf_ids=[]
+for d in sorted(glob.glob('/verif/seeded/*/')):
+    mid=os.path.basename(d.rstrip('/'))
+    try: m=json.load(open(d+'meta.json'))
+    except Exception: continue
+    tot+=1
+    conf=m['confirmed']; det=m.get('detected_by') or []
+    prop=m.get('breaks_property') or mid.split('-')[0]
+    if all(conf.values()):
+        if prop in det: own+=1
+        elif det: cross+=1; cross_ids.append(f"{mid} ({', '.join(det)})")
+        else: undetected+=1; undet_ids.append(mid)
+    elif conf.get('patch_applies') and conf.get('compiles') and not conf.get('demo_fails_with_change'):
+        neutral+=1; neutral_ids.append(mid)
+    else:
+        notconf+=1; notconf_ids.append(mid)
+summary=(f"Of the {tot} changes, {own} are confirmed on the final tree and reported by the check of the property they were written against, "
+         f"{cross} are confirmed and reported only by a neighbouring check ({'; '.join(cross_ids)}), "
+         f"{undetected} are confirmed and not reported ({', '.join(undet_ids) or 'none'}), "
+         f"{neutral} are no longer breaks on the repaired tree - their demonstration passes with the change applied, because a later fix removed or guards the code path ({', '.join(neutral_ids) or 'none'})"
+         + (f", and {notconf} could not be confirmed again ({', '.join(notconf_ids)})" if notconf else "") + ".")
 if '--write' in sys.argv:
     p='/verif/DESIGN.md'; s=open(p).read()
     if 'SEEDED_TABLE' in s: s=s.replace('SEEDED_TABLE','<!-- seeded-table-begin -->\n'+table+'\n<!-- seeded-table-end -->')
     else: s=re.sub(r'<!-- seeded-table-begin -->.*?<!-- seeded-table-end -->','<!-- seeded-table-begin -->\n'+table.replace('\\','\\\\')+'\n<!-- seeded-table-end -->',s,flags=re.S)
+    s=re.sub(r'<!-- seeded-summary-begin -->.*?<!-- seeded-summary-end -->','<!-- seeded-summary-begin -->\n'+summary.replace('\\','\\\\')+'\n<!-- seeded-summary-end -->',s,flags=re.S)
     open(p,'w').write(s)
-print(table)
+print(summary)
